@@ -280,10 +280,15 @@ pub fn k_module_iter() {
 // ---- C05/C17: the accessor does not look past the DECLARED size.  Declared size
 // SIZE with a string part of concrete non-NUL ASCII bytes; the padding up to the next
 // 8-byte boundary and the neighbouring tag are symbolic: whatever they contain (a NUL
-// in particular) the result is MissingNul.  Unwinding 26 covers a scan of the whole region,
+// in particular) the result is MissingNul.  Unwinding 14 covers a scan of the padded extent and beyond,
 // so an accessor that reads the padded extent or beyond fails the assertion, not the bound.
 fn no_nul_inside_declared<const SIZE: usize>() {
-    let mut bytes = AlignedBytes(kani::any::<[u8; 32]>());
+    let mut bytes = AlignedBytes([0u8; 32]);
+    let mut k = SIZE;
+    while k < 32 {
+        bytes.0[k] = kani::any();
+        k += 1;
+    }
     bytes.0[0..4].copy_from_slice(&3u32.to_le_bytes());
     bytes.0[4..8].copy_from_slice(&(SIZE as u32).to_le_bytes());
     let mut i = 16;
@@ -300,12 +305,12 @@ fn no_nul_inside_declared<const SIZE: usize>() {
     kani::cover!(b[round8(SIZE)] == 0);
 }
 #[kani::proof]
-#[kani::unwind(26)]
+#[kani::unwind(14)]
 pub fn k_module_padding_nul_not_counted_a() {
     no_nul_inside_declared::<19>();
 }
 #[kani::proof]
-#[kani::unwind(26)]
+#[kani::unwind(14)]
 pub fn k_module_padding_nul_not_counted_b() {
     no_nul_inside_declared::<21>();
 }
